@@ -369,7 +369,8 @@ def r3_partition_typing(ctx):
             extra = {"E": Arr("S2", "S2")}
         T, okn, nbad = O.type_function(ctx, rel, q, attrs, label, extra, rule="C01-R3")
         tot += okn + nbad
-    O.check_su_coef_call(ctx, U, "C01-R3")
+    from .c01_rb import su_coef_call_spaces
+    su_coef_call_spaces(ctx, U, "C01-R3")          # as ode_spaces.check_su_coef_call, on the values that reach get_su_coef's parameters
     # SolveExp2.__init__: the four blocks of E are named after the halves they connect
     fn = ctx.src.func(O.SE2, "SolveExp2.__init__")
     want = {"E_vv": ("v", "v"), "E_vd": ("v", "d"), "E_dv": ("d", "v"), "E_dd": ("d", "d")}
@@ -1346,17 +1347,24 @@ def r11_complex_unc_batch(ctx):
                       (" (real part taken as rur Re y - iur Im y)" if systype == "float" else ""), fn, detail)
 
 
+def _r12(ctx):
+    """the rigid-body set get_su_coef works on is the solver's own (see c01_rb)"""
+    from .c01_rb import r12_rb_partition_agreement
+    return r12_rb_partition_agreement(ctx)
+
+
 RULES = [
     ("C01-R1", r1_coef_identities, 150),
     ("C01-R1b", r1b_regime_selectors, 14),
     ("C01-R3", r3_partition_typing, 60),
     ("C01-R4", r4_frame_typing, 19),
     ("C01-R6", r6_equilibrium_acceleration, 11),
-    ("C01-R7", r7_subspace_typing, 12),
+    ("C01-R7", r7_subspace_typing, 14),
     ("C01-R8", r8_solveexp1, 14),
     ("C01-R9", r9_solveexp2, 20),
     ("C01-R10", r10_real_unc_batch, 4),
     ("C01-R11", r11_complex_unc_batch, 24),
+    ("C01-R12", _r12, 2),
 ]
 
 LEVEL = "other"
@@ -1377,7 +1385,9 @@ MANIFEST = {
             "m None/diagonal/full), the uncoupled SolveUnc loop (with the coefficient vectors in the loop function's parameter positions) and the complex-mode "
             "loop (rigid-body double integration, modal recurrence, ur_d/ur_v mapping) are the documented one-step recurrences on a generic 4-sample history, "
             "for contiguous partitions (row blocks are views) and interleaved ones (copies written back) "
-            "(R8-R11: the history arrays are objects with identity created by the rule; loops, helpers, aliases and local names are evaluated away). "
+            "(R8-R11: the history arrays are objects with identity created by the rule; loops, helpers, aliases and local names are evaluated away); "
+            "the rigid-body set get_su_coef is given by SolveUnc is the solver's own index set whether or not it is empty - None is accepted only if "
+            "get_su_coef itself reads None as 'no mode' (R12). "
             "Does not decide round-off levels, "
             "conditioning grades or library eigen/expm calls.",
     "note": "Trusted: CPython ast parser, the exact rational normal-form engine (verifier/e2_formula.py), the abstract interpreter verifier/e2_eval.py + "
